@@ -302,8 +302,27 @@ func (tt *Terms) Eq(a, b *Term) *Term {
 		}
 	}
 	if a.Sort.K == KStr {
-		// "" == s  <=> len(s)==0 is left to the solver
-		// concat with constant prefix mismatch, etc. left to solver
+		// conflicting constant prefixes / suffixes decide the equality syntactically
+		pa, ea := strPrefix(a)
+		pb, eb := strPrefix(b)
+		n := len(pa)
+		if len(pb) < n {
+			n = len(pb)
+		}
+		if pa[:n] != pb[:n] {
+			return tt.False
+		}
+		if ea && len(pb) > len(pa) || eb && len(pa) > len(pb) {
+			return tt.False // one side is exactly a constant shorter than the other's known prefix
+		}
+		sa, sb := strSuffix(a), strSuffix(b)
+		m := len(sa)
+		if len(sb) < m {
+			m = len(sb)
+		}
+		if sa[len(sa)-m:] != sb[len(sb)-m:] {
+			return tt.False
+		}
 	}
 	return tt.mk("=", SBool, a, b)
 }
@@ -1263,4 +1282,25 @@ func (tt *Terms) rebuild(t *Term, a []*Term) *Term {
 	}
 	// unknown operator: keep symbolic (caller falls back to the solver)
 	return tt.mk(t.Op, t.Sort, a...)
+}
+
+// strPrefix returns the known constant prefix of a string term and whether it is the whole string.
+func strPrefix(t *Term) (string, bool) {
+	if t.IsConst() {
+		return t.S, true
+	}
+	if t.Op == "str.++" && t.Args[0].IsConst() {
+		return t.Args[0].S, false
+	}
+	return "", false
+}
+
+func strSuffix(t *Term) string {
+	if t.IsConst() {
+		return t.S
+	}
+	if t.Op == "str.++" && t.Args[len(t.Args)-1].IsConst() {
+		return t.Args[len(t.Args)-1].S
+	}
+	return ""
 }
